@@ -31,6 +31,8 @@ fi
 if [ "$cmd" = run ]; then
   m=$3; tier=${4:-quick}; chk=${5:-$id}
   d=$V/seeded/$id/$m
+  # exclusive use of /repo's working tree while the seeded change is applied
+  exec 9>/tmp/verif-repo.lock; flock 9; export VERIF_LOCK_HELD=1
   if [ -n "$(git -C /repo status --porcelain)" ]; then echo "/repo not clean"; exit 2; fi
   if ! git -C /repo apply $d/patch.diff 2>/dev/null; then
     if ! git -C /repo apply --3way $d/patch.diff; then echo "patch does not apply"; git -C /repo checkout -- . ; git -C /repo reset -q; exit 2; fi
